@@ -150,6 +150,13 @@ def roundtrip(stack, c, serde_name, key, value, chunks, coll):
         g2 = cl.gets(key)
         if g2[0] != want or type(g2[0]) is not type(want):
             return "gets returned %r (%s), stored %s" % (repr(g2)[:100], type(g2[0]).__name__, type(want).__name__)
+        # the get-and-touch forms fetch the same item (and the same cas token)
+        g3 = cl.gat(key, 0)
+        if g3 != want or type(g3) is not type(want):
+            return "gat returned %r (%s), stored %r (%s)" % (repr(g3)[:80], type(g3).__name__, repr(want)[:80], type(want).__name__)
+        g4 = cl.gats(key, 0)
+        if g4[0] != want or type(g4[0]) is not type(want) or g4[1] != g2[1]:
+            return "gats returned %r (%s), gets returned %r" % (repr(g4)[:100], type(g4[0]).__name__, repr(g2)[:100])
         ks = [other, key, b"absent"]
         arg = {"list": lambda: list(ks), "tuple": lambda: tuple(ks), "set": lambda: set(ks), "dict_keys": lambda: dict.fromkeys(ks).keys(),
                "iterator": lambda: iter(list(ks)), "generator": lambda: (k for k in ks)}[coll]()
@@ -244,7 +251,7 @@ def correspondence(ctx):
     for i in range(200 if ctx.quick else 2000):
         c = dict(tcp=False, prefix=rng.choice([b"", b"p:"]), default_noreply=False, ignore_exc=False, serde=rng.choice([0, 1, 1, 2, 3, 12]), unicode=True, enc=rng.choice([0, 1]))
         k, v = rng.choice(KEYS[:5]), rng.choice(NASTY[:8] + ["text", 5])
-        ops = [(0, 0, k, v, 0, False, None), (3, k, None), (4, k, None, None), (7, rng.random() < 0.3, [b"zz", k]), (8, False, [k, b"q"]),
+        ops = [(0, 0, k, v, 0, False, None), (3, k, None), (4, k, None, None), (5, k, 0, None), (6, k, 0, None, None), (7, rng.random() < 0.3, [b"zz", k]), (8, False, [k, b"q"]),
                # one set_many with values of different kinds (each item carries its own serializer flags), then fetched together
                (1, [(b"m1", b"raw"), (b"m2", "text"), (b"m3", 7), (b"m4", b"tail")], 0, False, None), (7, False, [b"m1", b"m2", b"m3", b"m4"])]
         srv = Server()
